@@ -97,14 +97,23 @@ def build_fsa(aut, model, start):
             for v in list(d):
                 if not d[v] and v in heads and v != start:
                     del d[v]
-        return fsa.FSA(d, start_vertices=[start])
+        F = fsa.FSA(d, start_vertices=[start])
+        # the caller goes on using its dictionary (the automaton must have copied it)
+        for v in list(d):
+            d[v]["~foreign"] = v
+        return F
     if route == 1:
         out = {}
         for v, nb in model.items():
             out[v] = {}
             for lab, h in nb.items():
                 out[v].setdefault(h, []).append(lab)
-        return fsa.FSA(out, start_vertices=[start], graph_dict=False)
+        F = fsa.FSA(out, start_vertices=[start], graph_dict=False)
+        for v in list(out):
+            for h in list(out[v]):
+                out[v][h].append("~foreign")
+            out[v].setdefault(v, []).append("~foreign2")
+        return F
     if route == 3:
         # built with placeholder labels, then relabelled in place (as CoxeterGroup.automaton
         # does) - the enumeration must see the new labels in every view it walks
